@@ -123,6 +123,8 @@ type Rec struct {
 	parked []*parked
 	got    map[string][]int
 	Parks  func(s string) bool
+
+	abandoned bool
 }
 
 func NewRec(subs []string, parks func(s string) bool) *Rec {
@@ -141,6 +143,10 @@ func (r *Rec) Callback(s string, inner func(context.Context, string)) func(conte
 		if r.Parks(s) {
 			p := &parked{m: m, s: s, text: msg, ch: make(chan bool)}
 			r.mu.Lock()
+			if r.abandoned {
+				r.mu.Unlock()
+				return
+			}
 			r.parked = append(r.parked, p)
 			r.mu.Unlock()
 			if !<-p.ch {
@@ -178,14 +184,20 @@ func (r *Rec) Release(m int, s string) error {
 
 // Abandon discards every parked callback (end of a walk).
 func (r *Rec) Abandon() {
-	r.mu.Lock()
-	ps := r.parked
-	r.parked = nil
-	r.mu.Unlock()
-	for _, p := range ps {
-		p.ch <- false
+	for {
+		r.mu.Lock()
+		r.abandoned = true // callbacks entered from now on return at once
+		ps := r.parked
+		r.parked = nil
+		r.mu.Unlock()
+		if len(ps) == 0 {
+			return
+		}
+		for _, p := range ps {
+			p.ch <- false
+		}
+		synctest.Wait() // a released callback may let its caller enter the next one
 	}
-	synctest.Wait()
 }
 
 // Pending is the projection of the parked callbacks.
